@@ -258,7 +258,8 @@ def _litstring(ch, s):
 
 def _octal(ch, c, nxt_digit):
     ch.features.add("octal-escape")
-    forms = [b"\\%03o" % c]
+    # three digits may overflow a byte: "high-order overflow shall be ignored" (ISO 32000-1 Table 3), so \\501 is A
+    forms = [b"\\%03o" % c, b"\\%03o" % (c + 256)]
     if not nxt_digit:
         if c < 64:
             forms.append(b"\\%02o" % c)
